@@ -349,6 +349,29 @@ def run(ctx, anchors=None):
         ctx.inst(bool(reach & echo_fns), "R12.5", "echo-at-counter:" + fname, f.loc(), "%s echoes the line at the position counter" % fname,
                  "%s no longer echoes script_lines[curr_op_seq]" % fname)
 
+    # ---- R12.9 the script pane lists what is still to be executed: during the commitment phase that is the description from the
+    # step the environment has reached (Description() has one line per step of Iterate()), not the whole description
+    ctx.rule("R12.9", "the script pane starts the commitment section at the step that is pending")
+    sv_ = fb.fn("svprintscripts")
+    desc_loops = []
+    for n in sv_.nodes():
+        if n["k"] in ("forrange", "for"):
+            txt = astq.estr(n.get("range")) if n["k"] == "forrange" else astq.estr(n.get("cond"))
+            body_pushes = [x for x in walk(n.get("body")) if x["k"] == "mcall" and x.get("n") == "push_back"]
+            if body_pushes and "desc" in (txt or ""):
+                desc_loops.append(n)
+    if len(desc_loops) != 1:
+        raise AnalysisBroken("R12.9: expected one loop over the commitment description in svprintscripts, found %d" % len(desc_loops))
+    dl = desc_loops[0]
+    # necessary condition, whatever the loop looks like: the code that builds the section consults the environment's progress (m_i)
+    blk_ = [a for a in sv_.ancestors(dl) if a.get("k") == "if"]
+    scope_ = blk_[0] if blk_ else dl
+    from_pending = any(x["k"] == "mem" and x.get("n") == "m_i" for x in walk(scope_))
+    ctx.site()
+    ctx.inst(from_pending, "R12.9", "commitment-section-from-pending-step", sv_.loc(dl),
+             "the pane lists the commitment description from index m_i (the step Iterate() performs next)",
+             "the pane lists the whole commitment description on every refresh: after k steps the first k `Branch:` lines are still shown as pending although the right column already shows i: k")
+
     # ---- R12.8 the numbered listing shows every operation in full (it is "the exact decoding"): a fixed-size buffer that
     # receives the hex rendering of a push must hold the largest legal push - 2 * MAX_SCRIPT_ELEMENT_SIZE digits - plus whatever
     # precedes it in that buffer and the terminator. (The two-column pane abbreviates long values on purpose; it is not judged.)
@@ -393,6 +416,7 @@ def run(ctx, anchors=None):
 
 
 MUTANTS = [
+    dict(name="pane-lists-finished-commitment-steps", file="functions.cpp", find="        for (size_t k = tce->m_i; k < desc.size(); ++k) {", replace="        for (size_t k = 0; k < desc.size(); ++k) {", expect=["R12.9:commitment-section-from-pending-step"]),
     dict(name="listing-buffer-too-small", file="btcdeb.cpp", find="    char buf[16 + 2 * MAX_SCRIPT_ELEMENT_SIZE];", replace="    char buf[1024];", expect=["R12.8:listing-buffer-holds-a-maximal-push"]),
     dict(name="commitment-counted-under-narrower-guard", file="btcdeb.cpp", find="    } else if (env->sigversion == SigVersion::TAPSCRIPT) {\n        // add commitment phase",
          replace="    } else if (env->sigversion == SigVersion::TAPSCRIPT && env->tce && env->tce->m_path_len > 0) {\n        // add commitment phase", expect=["R12.1:commitment-lines-counted"]),
